@@ -38,3 +38,7 @@ def install(eng):
                                           "gwf.plugins.touch:touch_workflow._visit"] + FILTERS, enum_cli.run_c16)
     eng.enumerator("cli-cancel", ["C17"], ["gwf.plugins.cancel:cancel", "gwf.plugins.cancel:cancel_many",
                                            "gwf.backends.base:TrackingBackend.cancel"] + FILTERS, enum_cli.run_c17)
+    from replay import enum_local
+    LOCAL = [k for k in eng.contracts if k.startswith("gwf.backends.local:")]
+    eng.enumerator("local-pool-scenarios", ["C11", "C12", "C13"], LOCAL, lambda seed, focus: enum_local.replay(None, None, None, seed))
+    eng.enumerator("local-server-clients", ["C14"], LOCAL, lambda seed, focus: enum_local.replay_server(None, None, None, seed))
